@@ -116,7 +116,10 @@ def _run_case_child(case, d):
     if case.get("precache"):
         pre = precache_program(prog, case["precache"])
         os.environ.pop("VERIF_GATE", None)
-        G.build(pre, d / "src")(cache_root=cache, worker="debug")
+        try:
+            G.build(pre, d / "src")(cache_root=cache, worker="debug")
+        except Exception as e:  # noqa: the prefix itself does not run (C03's business); go on cold
+            data["precache_failed"] = f"{type(e).__name__}"
     gate = sched.make_gate(d / "gate")
     sched.set_failures(gate, case.get("fails") or [])
     task = G.build(prog, d / "src")
